@@ -40,9 +40,31 @@ LEVEL_TEXT = ("C16_balanced, C16_chronological, C16_complete, C16_open_before_us
               "an asset/liability account, value adjustments included, has an open directive in force and no earlier close; "
               "C16_valuation_open_refuted: the clause 'every posted account has an open directive' is FALSE for the accounts "
               "Valuate posts value adjustments to (Income:...; Transcode tests the stale prefix Equity:Valuation:) -- known "
-              "finding F16, pinned by testdata/transcode/example.golden.")
+              "finding F16, pinned by testdata/transcode/example.golden. "
+              "Reader/writer round trip: C16_text_roundtrip -- for every valuation commodity and every list of items that satisfy the "
+              "lexical side conditions (Spec/BeancountLex.v commodity_lex_b, entries_lex_b: years 0000..9999, account names non-empty "
+              "without space/newline/double quote, descriptions without double quote, newlines allowed) the reader applied to the "
+              "writer's text returns V as written and the erased items with every amount as it is after Decimal.String "
+              "(DecNormalForm.reread; with the amounts themselves the statement is false: C16_text_roundtrip_exact_refuted); "
+              "C16_emitted_items_lexical: the items of `knut transcode` satisfy the conditions whenever the journal's directives do "
+              "(journal_lex_b); C16_model_text_roundtrip / C16_roundtrip_check: roundtrip_b is a theorem; C16_verdict_on_model_text: "
+              "the verdict on the model's own text equals verdict_of (beancount_check ++ complete_check ++ mtm_check) on the erased "
+              "items, the objects of the theorems above; C16_model_verdict_partial: on them mtm_check finds nothing and every violation "
+              "of beancount_check is a posting violation raised by a posting of a value adjustment on a non-A/L account (F16/F16b's "
+              "Income:... account). C16_linewise_reader_refuted: the former line-wise reader rejected the correct ledger of a journal "
+              "whose description contains a newline (knut accepts it); read_ledger now splits lines outside double-quoted strings only.")
 LEVEL_NOTE = ("Trusted: kernel, extraction, harness; the model-to-code tie is sampled (quick ~300 journals). The theorems are about the "
-              "emitted items; that the text reads back to those items is checked on every case (roundtrip_b), not proved. "
+              "emitted items; that the text reads back to those items is proved (C16_text_roundtrip, C16_model_text_roundtrip) under "
+              "lexical side conditions on the journal (journal_lex_b, weaker than what knut's parser guarantees; stronger than "
+              "postings_syntactic, which allows a space inside an account segment: C16_space_in_account_example) and on V "
+              "(commodity_lex_b); the driver evaluates the side conditions on every case and falls back to the executable test "
+              "roundtrip_b only outside them (no generated case is). Amounts are read back up to Decimal.String (reread: same value); "
+              "no clause of the verdict can tell (Proofs/BeancountVerdict.v). Not proved: that the verdict on the model's text is "
+              "`ok` or F16/F16b's known shape for every journal (full statement in the comment at C16_model_verdict_partial): open are "
+              "that check_posting classifies the remaining violations as the known shape and that complete_check finds nothing; both "
+              "are evaluated per case on the binary's byte-identical output. Two repairs of the executable verdict came out of the "
+              "proof: multi-line descriptions (split_lines; the generator now writes them) and the order clause for ledgers of the "
+              "year 0000 (bst_init, C16_order_year0_example). "
               "Side condition of the mark-to-market theorems: account names as the parser guarantees them (postings_syntactic). "
               "The truncation steps are counted inside [first directive date, last directive date] (year-0000 dates are negative "
               "day numbers: C16_mtm_year0_example). "
